@@ -148,7 +148,7 @@ func cmdCheck(args []string) int {
 	wd := workDir()
 	defer os.RemoveAll(wd)
 
-	opts := SolveOpts{Timeout: 25 * time.Second, Seed: seed, WorkDir: wd}
+	opts := SolveOpts{Timeout: 40 * time.Second, Seed: seed, WorkDir: wd}
 	if *tier == "thorough" {
 		opts.Timeout = 90 * time.Second
 		opts.AllSolvers = true
